@@ -3,6 +3,7 @@ import RaftVerif.Proofs.ServerLocal
 import RaftVerif.Proofs.AELog
 import RaftVerif.Proofs.RunInv
 import RaftVerif.Proofs.RefineAE
+import RaftVerif.Proofs.Replicate
 /-! # C04 — log matching and AppendEntries consistency.
 
 Registered: `RP.log_matching` (cluster model), `SV.ae_stale_term_inert`, `SV.ae_success_sound`,
